@@ -279,6 +279,18 @@ class Interface(wiring.PureInterface):
         return f"csr.Interface({self.signature!r})"
 
 
+def _or_reduce(terms):
+    """OR-reduce ``terms`` as a balanced tree, so that the depth of the resulting expression is
+    logarithmic (and not linear) in the number of terms."""
+    terms = list(terms)
+    if not terms:
+        return 0
+    while len(terms) > 1:
+        terms = [terms[i] | terms[i + 1] if i + 1 < len(terms) else terms[i]
+                 for i in range(0, len(terms), 2)]
+    return terms[0]
+
+
 class Multiplexer(wiring.Component):
     class _Shadow:
         class Chunk:
@@ -559,12 +571,12 @@ class Multiplexer(wiring.Component):
         # those together. If the toolchain doesn't already synthesize multiplexer trees this way,
         # this trick can save a significant amount of logic, since e.g. one 4-LUT can pack one
         # 2-MUX, but two 2-AND or 2-OR gates.
-        r_data_fanin = 0
+        r_data_fanin = []
 
         for chunk_offset, r_chunk in self._r_shadow.chunks():
             # Use the same trick to select which CSR register is read into a shadow register chunk.
-            r_chunk_w_en_fanin = 0
-            r_chunk_data_fanin = 0
+            r_chunk_w_en_fanin = []
+            r_chunk_data_fanin = []
 
             m.d.sync += r_chunk.r_en.eq(0)
 
@@ -581,16 +593,16 @@ class Multiplexer(wiring.Component):
                         # Delay by 1 cycle, allowing reads to be pipelined.
                         m.d.sync += r_chunk.r_en.eq(self.bus.r_stb)
 
-                    r_chunk_w_en_fanin |= reg.element.r_stb
-                    r_chunk_data_fanin |= Mux(reg.element.r_stb, reg_r_data, 0)
+                    r_chunk_w_en_fanin.append(reg.element.r_stb)
+                    r_chunk_data_fanin.append(Mux(reg.element.r_stb, reg_r_data, 0))
 
-            m.d.comb += r_chunk.w_en.eq(r_chunk_w_en_fanin)
+            m.d.comb += r_chunk.w_en.eq(_or_reduce(r_chunk_w_en_fanin))
             with m.If(r_chunk.w_en):
-                m.d.sync += r_chunk.data.eq(r_chunk_data_fanin)
+                m.d.sync += r_chunk.data.eq(_or_reduce(r_chunk_data_fanin))
 
-            r_data_fanin |= Mux(r_chunk.r_en, r_chunk.data, 0)
+            r_data_fanin.append(Mux(r_chunk.r_en, r_chunk.data, 0))
 
-        m.d.comb += self.bus.r_data.eq(r_data_fanin)
+        m.d.comb += self.bus.r_data.eq(_or_reduce(r_data_fanin))
 
         for chunk_offset, w_chunk in self._w_shadow.chunks():
             with m.Switch(self.bus.addr):
